@@ -255,7 +255,10 @@ inductive Col where
   | strs (v : List Bytes)
   | floats (v : List Bytes)        -- kept as text (C18 owns the conversion)
   | intLists (v : List (List Int))
-deriving Repr
+  | bools (v : List Bool)
+  | strLists (v : List (List Bytes))       -- genotype strings per sample
+  | floatLists (v : List (List Bytes))     -- float lists, kept as text
+deriving Repr, DecidableEq
 
 /-- `_get_field_by_number` dispatch on the declared type -/
 def typedColumn (kind : String) (data : Bytes) (fs : List (Nat × Nat)) : Except Err Col :=
@@ -381,6 +384,20 @@ def lineDelims (d : Nat) (data : Bytes) : List (List Nat) :=
   let counts := (linesOf data).map (fun l => l.count d + 1)
   unflatten counts ds
 
+/-- one line: `s0` = line start, `r` = positions of the line's delimiters (the last one is its newline);
+the (start,end) of the first `k` fields, and of the rest of the line (`SAMBufferExctractor._get_extra_field`:
+from one past the end of field `k` up to the line end, never negative) -/
+def samRow (data : Bytes) (cr : Bool) (k : Nat) (s0 : Nat) (r : List Nat) : List (Nat × Nat) × (Nat × Nat) :=
+  let lineEnd0 := r.getLast?.getD 0
+  let lineEnd := if cr && data.getD (lineEnd0 - 1) 0 = 13 then lineEnd0 - 1 else lineEnd0
+  let r' := r.dropLast ++ [lineEnd]
+  let starts := s0 :: r.dropLast.map (· + 1)
+  let fields := (List.zip starts r').take k
+  let e := (fields.getLast?.map (·.2)).getD 0
+  -- `_get_extra_field`: the text ends before the newline, or before a carriage return preceding it (every row)
+  let extraEnd := if data.getD (lineEnd0 - 1) 0 = 13 then lineEnd0 - 1 else lineEnd0
+  (fields, (e + 1, max extraEnd (e + 1)))
+
 /-- rows of (start,end) for the first `k` fields and the (start,end) of the rest of the line -/
 def samRows (d : Nat) (k : Nat) (bs : Bytes) : Except Err (List (List (Nat × Nat) × (Nat × Nat))) :=
   let data := complete bs
@@ -390,16 +407,7 @@ def samRows (d : Nat) (k : Nat) (bs : Bytes) : Except Err (List (List (Nat × Na
   let cr := firstEnd ≠ 0 && data.getD (firstEnd - 1) 0 = 13
   let prevs := 0 :: (ld.map (fun r => r.getLast?.getD 0 + 1)).dropLast       -- entry starts
   if ld.any (fun r => r.length < k) then .error .shape else
-  .ok ((List.zip prevs ld).map (fun pr =>
-    let s0 := pr.1
-    let r := pr.2
-    let lineEnd0 := r.getLast?.getD 0
-    let lineEnd := if cr && data.getD (lineEnd0 - 1) 0 = 13 then lineEnd0 - 1 else lineEnd0
-    let r' := r.dropLast ++ [lineEnd]
-    let starts := s0 :: r.dropLast.map (· + 1)
-    let fields := (List.zip starts r').take k
-    let e := (fields.getLast?.map (·.2)).getD 0
-    (fields, (e + 1, max lineEnd (e + 1)))))
+  .ok ((List.zip prevs ld).map (fun pr => samRow data cr k pr.1 pr.2))
 
 def parseSam (S : Schema) (bs : Bytes) : Except Err (Nat × List Col) := do
   let rows ← samRows S.delim 11 bs
@@ -533,6 +541,106 @@ def parseVcf (S : Schema) (shift : Int) (bs : Bytes) : Except Err (Nat × List C
   let kinds := ((S.cols.map (·.2)).take 8).map (fun k => if k = "info" then "str" else k)
   let cols ← typedColumns kinds bs rows
   pure (rows.length, shiftCol 1 shift cols)
+
+/-! ## VCF INFO (`VCFBuffer._get_dataclass_field`, `NamedBufferExtractor`) and genotype columns -/
+
+/-- the `;`-separated items of every row's INFO text: the row terminator counts as a separator, the flat text is
+split once and regrouped per row (the code does this with a sorted merge of `;` positions and row offsets) -/
+def infoSubfields (rows : List Bytes) : List (List Bytes) :=
+  let texts := rows.map (· ++ [59])
+  unflatten (texts.map (·.count 59)) (pieces (· == 59) texts.flatten)
+
+def isPrefix (p t : Bytes) : Bool := t.take p.length == p
+
+/-- `get_field_by_name`: the item that starts with `name=`; absent → empty text; present twice → FormatException -/
+def infoLookup (name : Bytes) (subs : List Bytes) : Option Bytes :=
+  match subs.filter (isPrefix (name ++ [61])) with
+  | [] => some []
+  | [f] => some (f.drop (name.length + 1))
+  | _ => none
+
+/-- `has_field_name` (flags): an item equal to the name -/
+def infoFlag (name : Bytes) (subs : List Bytes) : Bool := subs.contains name
+
+/-- one declared INFO key, typed by the header declaration (kind) -/
+def infoColumn (kind : String) (name : Bytes) (subs : List (List Bytes)) : Except Err Col :=
+  if kind = "flag" then .ok (Col.bools (subs.map (infoFlag name)))
+  else
+    match omap (infoLookup name) subs with
+    | none => .error (.format (subs.findIdx (fun r => (infoLookup name r).isNone)))
+    | some vals =>
+      if kind = "oint" then (optIntColumn vals).map Col.ints
+      else if kind = "ofloat" then .ok (Col.floats (vals.map (fun v => if v = [] ∨ v = [46] then [110, 97, 110] else v)))
+      else if kind = "ilist" then (intListColumn vals).map Col.intLists
+      else if kind = "flist" then .ok (Col.floatLists (splitRows 44 vals))
+      else .ok (Col.strs vals)
+
+/-- `_GenotypeRowEncoding`: alphabet 0 1 2 . | /  → indices 0..5, every other byte 0 -/
+def gtIndex (b : Nat) : Nat :=
+  if b = 48 then 0 else if b = 49 then 1 else if b = 50 then 2 else if b = 46 then 3 else if b = 124 then 4
+  else if b = 47 then 5 else 0
+
+/-- `encode`: 36·a + 6·sep + b, stored as int8 (wraps above 127) -/
+def gtEncode (t : Bytes) : Int :=
+  let v := 36 * gtIndex (t.getD 0 0) + 6 * gtIndex (t.getD 1 0) + gtIndex (t.getD 2 0)
+  if v ≥ 128 then (v : Int) - 256 else v
+
+def gtSymbols : List Nat := [48, 49, 50, 46, 124, 47]
+def gtAlleles : List Nat := [48, 49, 50, 46]
+def gtSeps : List Nat := [124, 47]
+
+/-- `decode`: the reverse lookup table (rows of a 256-entry table filled at the codes of the 32 genotypes,
+zero elsewhere), indexed with the (possibly negative → wrapped) code -/
+def gtDecode (c : Int) : Bytes :=
+  let i := (if c < 0 then c + 256 else c).toNat
+  let hits := (gtAlleles.flatMap (fun a => gtSeps.flatMap (fun s => gtAlleles.map (fun b => [a, s, b])))).filter
+    (fun g => 36 * gtIndex (g.getD 0 0) + 6 * gtIndex (g.getD 1 0) + gtIndex (g.getD 2 0) = i)
+  hits.getLast?.getD [0, 0, 0]
+
+/-- `get_fixed_length_field(slice(9, None), 3)`: three bytes from the start of every sample field -/
+def sampleTriplets (data : Bytes) (rows : List (List (Nat × Nat))) : List (List Bytes) :=
+  rows.map (fun r => (r.drop 9).map (fun p => slice data p.1 (p.1 + 3)))
+
+/-- genotype column of the VCF buffer flavours -/
+def genotypeColumn (flavour : String) (data : Bytes) (rows : List (List (Nat × Nat))) : Option Col :=
+  if flavour = "VCFMatrixBuffer" then
+    some (Col.strLists ((sampleTriplets data rows).map (·.map (fun t => gtDecode (gtEncode t)))))
+  else if flavour = "PhasedVCFMatrixBuffer" then
+    -- (a == '1')*2 + (b == '1'), decoded through "0|0","0|1","1|0","1|1"
+    some (Col.strLists ((sampleTriplets data rows).map (·.map (fun t =>
+      [if t.getD 0 0 = 49 then 49 else 48, 124, if t.getD 2 0 = 49 then 49 else 48]))))
+  else if flavour = "PhasedHaplotypeVCFMatrixBuffer" then
+    -- alphabet 0 1 2 3 4 . → 0..5 (others 0), two haplotypes per sample
+    some (Col.intLists ((sampleTriplets data rows).map (fun r => r.flatMap (fun t =>
+      let ix := fun (b : Nat) => if 48 ≤ b ∧ b ≤ 52 then ((b - 48 : Nat) : Int) else if b = 46 then 5 else 0
+      [ix (t.getD 0 0), ix (t.getD 2 0)]))))
+  else if flavour = "VCFBuffer2" then
+    -- `get_padded_field(slice(9, None), stop_at=':')`: every sample field up to the first ':'
+    some (Col.strLists (rows.map (fun r => (r.drop 9).map (fun p =>
+      let f := slice data p.1 p.2
+      let k := f.findIdx (· == 58)                 -- `argmax(array == ':')`: 0 when absent *or* at position 0
+      if 0 < k ∧ k < f.length then f.take k else f))))
+  else none
+
+structure VcfResult where
+  n : Nat
+  fixed : List Col                       -- the seven fixed columns
+  info : Sum Col (List (String × Col))    -- text, or one column per declared key
+  geno : Option Col
+
+def parseVcfX (S : Schema) (shift : Int) (flavour : String) (defs : List (String × String)) (bs : Bytes) :
+    Except Err VcfResult := do
+  let t ← fieldTable S.delim bs
+  if t.nCols < 8 then .error .shape else
+  let rows := crAdjustRows bs t.rows
+  let kinds := (S.cols.map (·.2)).take 7
+  let cols ← typedColumns kinds bs rows
+  let infoTexts := (columnOf rows 7).map (fun p => slice bs p.1 p.2)
+  let info ← if defs = [] then pure (Sum.inl (Col.strs infoTexts)) else do
+    let subs := infoSubfields infoTexts
+    let cs ← emap (fun kd : String × String => (infoColumn kd.2 (kd.1.toList.map Char.toNat) subs).map (fun c => (kd.1, c))) defs
+    pure (Sum.inr cs)
+  pure ⟨rows.length, shiftCol 1 shift cols, info, genotypeColumn flavour bs rows⟩
 
 /-- GFA S-lines: the record type column is skipped -/
 def parseFile (fmt : String) (S : Schema) (viaOpen : Bool) (bs0 : Bytes) (vcfShift : Int := -1) : Except Err (Nat × List Col) :=
